@@ -157,16 +157,22 @@ type harnessCall struct {
 // replayCandidates builds one harness with all candidate inputs, runs it once, and judges each outcome
 // until one contradicts the contract.
 func (p *Program) replayCandidates(fr *FuncResult, model map[string]string, work string, overlaySrc map[string][]byte, wantGauge bool) *ReplayResult {
+	cands := []map[string]string{model}
+	if wantGauge {
+		cands = candidateModels(model)
+	}
+	return p.replayCandidateList(fr, cands, work, overlaySrc, wantGauge)
+}
+
+// replayCandidateList runs the real function on every candidate input (one harness process) and judges the
+// observed outcomes against the contract, stopping at the first violating one.
+func (p *Program) replayCandidateList(fr *FuncResult, cands []map[string]string, work string, overlaySrc map[string][]byte, wantGauge bool) *ReplayResult {
 	rr := &ReplayResult{}
 	ex := fr.Exec
 	fn := ex.Fn
 	imports := map[string]string{}
 	var decls []string
 	var calls []harnessCall
-	cands := []map[string]string{model}
-	if wantGauge {
-		cands = candidateModels(model)
-	}
 	for _, cm := range cands {
 		me := &modelEnv{m: cm, pkg: fn.Pkg.Pkg, prog: p, wantGauge: wantGauge, imports: imports, cells: ex.Entry.Cells}
 		me.declBase = len(decls)
